@@ -247,7 +247,7 @@ func init() {
 		Level: "exploration",
 		Rule: "every combination of per-field variants of a request object (version 6 x id 12 x method 9 x params 7 x extra member 5) in containers {single, [m], [m,ok], [ok,m]} " +
 			"(thorough: the whole product of 90720 records on a push-disabled and a push-enabled server; quick: all members with at most one defective field plus a seeded 10% of the product), " +
-			"non-object members, then seeded byte-level mutations of valid records; each record goes to a live server and the emitted bytes and handler-invocation count are compared with an independent reference classifier, " +
+			"non-object members, single / batch / empty-batch records wrapped in every string of <= 2 JSON whitespace characters (space, tab, LF, CR) with whitespace inside the brackets, then seeded byte-level mutations of valid records; each record goes to a live server and the emitted bytes and handler-invocation count are compared with an independent reference classifier, " +
 			"followed by a probe call. distinct_nontrivial = distinct input records that are not a single plain valid call",
 		Assumptions: []string{
 			"encoding/json decides what is syntactically valid JSON (json.Valid) for the reference as for the library",
